@@ -133,7 +133,10 @@ pub(crate) fn process_subscription_close_response(
 	let sub_id = response.params.subscription.into_owned();
 	match manager.get_request_id_by_subscription_id(&sub_id) {
 		Some(request_id) => {
-			manager.remove_subscription(request_id, sub_id).expect("Both request ID and sub ID in RequestManager; qed");
+			let (unsub_req_id, ..) =
+				manager.remove_subscription(request_id, sub_id).expect("Both request ID and sub ID in RequestManager; qed");
+			// No unsubscribe call will be made, release the ID reserved for it.
+			let _ = manager.complete_pending_call(unsub_req_id);
 		}
 		None => {
 			tracing::debug!(target: LOG_TARGET, "The server tried to close an non-pending subscription: {:?}", sub_id);
@@ -199,6 +202,8 @@ pub(crate) fn process_single_response(
 			let json = match result {
 				Ok(s) => s.result,
 				Err(e) => {
+					// The subscription was refused, release the ID reserved for the unsubscribe call.
+					let _ = manager.complete_pending_call(unsub_id);
 					let _ = send_back_oneshot.send(Err(Error::Call(e)));
 					return Ok(None);
 				}
@@ -207,6 +212,7 @@ pub(crate) fn process_single_response(
 			let sub_id = match serde_json::from_str::<SubscriptionId>(json.get()) {
 				Ok(s) => s.into_owned(),
 				Err(e) => {
+					let _ = manager.complete_pending_call(unsub_id);
 					let _ = send_back_oneshot.send(Err(e.into()));
 					return Ok(None);
 				}
@@ -214,7 +220,7 @@ pub(crate) fn process_single_response(
 
 			let (subscribe_tx, subscribe_rx) = subscription_channel(max_capacity_per_subscription);
 			if manager
-				.insert_subscription(response_id.clone(), unsub_id, sub_id.clone(), subscribe_tx, unsubscribe_method)
+				.insert_subscription(response_id.clone(), unsub_id.clone(), sub_id.clone(), subscribe_tx, unsubscribe_method)
 				.is_ok()
 			{
 				match send_back_oneshot.send(Ok((subscribe_rx, sub_id.clone()))) {
@@ -222,6 +228,7 @@ pub(crate) fn process_single_response(
 					Err(_) => Ok(build_unsubscribe_message(manager, response_id, sub_id)),
 				}
 			} else {
+				let _ = manager.complete_pending_call(unsub_id);
 				let _ = send_back_oneshot.send(Err(Error::InvalidSubscriptionId));
 				Ok(None)
 			}
